@@ -37,10 +37,10 @@ func (prefixCodec) Unmarshal(b []byte, m any) error {
 
 type c01Variant struct {
 	customCodec bool
-	name       string
-	hopts      []connect.HandlerOption
-	copts      []connect.ClientOption
-	compressed bool
+	name        string
+	hopts       []connect.HandlerOption
+	copts       []connect.ClientOption
+	compressed  bool
 }
 
 func c01Variants(stats *svc.AlgoStats) []c01Variant {
@@ -148,7 +148,10 @@ func c01(run *ev.Run) int {
 	seqs := c01Seqs(run)
 	g0, p0, r0, _ := connect.VerifPoolStats()
 	poolViol := int64(0)
-	connect.VerifSetPoolReport(func(kind string) { poolViol++; run.Violation("c01/pool/"+kind, "buffer pool discipline violated: "+kind, nil) })
+	connect.VerifSetPoolReport(func(kind string) {
+		poolViol++
+		run.Violation("c01/pool/"+kind, "buffer pool discipline violated: "+kind, nil)
+	})
 	defer connect.VerifSetPoolReport(nil)
 
 	type job struct {
